@@ -44,11 +44,12 @@ import vlib
 PROPERTY = "C19"
 
 TRUSTED = [
-    "hand-written model coq/Spe_Model.v tied by differential replay of logged random streams (not a proof about the C++ text)",
+    "hand-written models coq/Spe_Model.v + coq/Spe_Des_Model.v tied by differential replay of logged random streams (not a proof about the C++ text)",
     "oracles: tapkee::random_shuffle (hook H1 reports the applied permutation; contract 'is a permutation' re-checked on every call), "
     "uniform_random / gaussian_random (CUSTOM_*_RANDOM_FUNCTION, logged), sqrt (norms of SPE: binary64 replay only; sqrt(D) of RP: exact when D is a square), "
     "Eigen inverse/determinant/log in routines/fa.hpp (function oracles in the model; replayed with an exact Gauss-Jordan inverse whose contract "
-    "M*R = I is re-checked on every call, only for fa_epsilon = 0 and small sizes; otherwise FA is tied through its two proved consequences)",
+    "M*R = I is re-checked on every call: the never-stopping EM trajectory for at most 2-3 rounds on small sizes, fa_epsilon = 0 and > 0; "
+    "beyond that FA is tied through its proved consequences: translation invariance, zero column sums, output in the column space of the centred designated samples)",
     "IEEE rounding: coordinates compared in binary64 with relative tolerance 1e-9 (tolerance stream); exact stream = indices, pairs, rational RP, bit-for-bit translation pairs",
     "extraction (ExtrOcamlBasic only) + OCaml 4.13.1 + coq/extract/c19_driver.ml (parsing/printing)",
     "harness/c19.cpp (embed_with<> replicates tapkee::embed's check/merge/ImplementationBase/validate/embed for one method); g++ ASan/UBSan/_GLIBCXX_ASSERTIONS",
@@ -130,6 +131,10 @@ def case_text(c):
         return "RPM %s %d %d %d %d\n" % (c["id"], c["D"], c["d"], c["srand"], c["reps"])
     if k == "RPP":
         return "RPP %s %d %d %d\n" % (c["id"], c["D"], c["d"], c["srand"])
+    if k == "RPF":
+        return "RPF %s %d %d %d %s\n" % (c["id"], c["D"], c["d"], len(c["rand"]), " ".join(map(str, c["rand"])))
+    if k == "URN":
+        return "URN %s %d %s\n" % (c["id"], len(c["rand"]), " ".join(map(str, c["rand"])))
     raise ValueError(k)
 
 
@@ -186,6 +191,10 @@ def parse_block(lines):
             r["RAND"] = [int(x) for x in w[1:]]
         elif t == "NEXT":
             r["NEXT"] = int(w[1])
+        elif t == "USEDRAND":
+            r["USEDRAND"] = int(w[1])
+        elif t == "US":
+            r["US"] = [float.fromhex(x) for x in w[1:]]
         elif t == "M":
             r["M"] = parse_rows(w[1:])
         elif t.startswith("["):
@@ -693,6 +702,34 @@ def eval_spe(ctx, exe, mexe, cases, st):
             ctx.mismatch(pc, "global strategy made %d distance calls before the first shuffle, expected N(N-1)/2" % r["PRE"])
             continue
         # tolerance stream: coordinates from the model's pairs in binary64
+        if "Y0" in r and "R" in r and is_finite_rows(r["Y"]) and T == 1 and outs and is_finite_rows(r["Y0"]):
+            # spec (theorems pair_update_distance / batch_update, lambda = 1 in the only iteration): a pair whose two points
+            # are touched by no other pair of the iteration ends at distance d * |1 + (alpha r - d - tol)/(d + tol)|
+            ps = outs[0]["pairs"]
+            cnt = {}
+            for a, b in ps:
+                cnt[a] = cnt.get(a, 0) + 1
+                cnt[b] = cnt.get(b, 0) + 1
+            Rm = r["R"]
+            mx = max((Rm[i][j] for i in range(N) for j in range(i + 1, N)), default=0.0)
+            alpha = (1.0 / mx * math.sqrt(2.0)) if c["global"] else 1.0
+            law = None
+            if not c["global"] or mx > 0:
+                for a, b in ps:
+                    if a == b or cnt[a] != 1 or cnt[b] != 1:
+                        continue
+                    d0 = math.dist(r["Y0"][a], r["Y0"][b])
+                    want = d0 * abs(1.0 + (alpha * Rm[a][b] - d0 - c["tol"]) / (d0 + c["tol"]))
+                    got = math.dist(r["Y"][a], r["Y"][b])
+                    if math.isfinite(want) and not abs(got - want) <= 1e-9 * max(1.0, abs(want), abs(got)):
+                        law = (a, b, d0, alpha * Rm[a][b], got, want)
+                        break
+                st.count("SPE/pair-law-after-one-iteration")
+            if law:
+                ctx.violation(pc, "SPE pair update law: one iteration (lambda = 1, tol = %g) moved the pair of positions (%d, %d) "
+                                  "from embedded distance %.17g (target %.17g) to %.17g; Y_i += lambda/2 (r-d)/(d+tol) (Y_i - Y_j) on "
+                                  "both points gives %.17g" % (c["tol"], law[0], law[1], law[2], law[3], law[4], law[5]))
+                continue
         if "Y0" in r and "R" in r and is_finite_rows(r["Y"]):
             Ym = replay_coordinates(c, r, [o["pairs"] for o in outs])
             worst = max((abs(a - b) / max(1.0, abs(a), abs(b)) for ra, rb in zip(Ym, r["Y"]) for a, b in zip(ra, rb)),
@@ -1138,23 +1175,7 @@ def eval_polar(ctx, exe_plain, mexe, rng, st, shapes):
                               "only returns x * sqrt(-2 ln r / r) for 0 < r < 1, which is finite (theorem polar_accepts_open_disc)" % (
                                   c["D"], c["d"], c["srand"], [v for v in flat if not math.isfinite(v)][0]))
             continue
-        bad = None
-        for e, ((xq, sq), got) in enumerate(zip(xs, flat)):
-            x, sr = Fraction(xq), Fraction(sq)
-            if not (0 < sr < 1):
-                bad = "model accepted radius %s outside (0, 1)" % sr
-                break
-            if 1 - sr < Fraction(1, 1 << 40):
-                st.count("RPP/radius-at-rounding-boundary")
-                continue
-            sf = float(sr)
-            want = float(x) * math.sqrt(-2.0 * math.log(sf) / sf) / math.sqrt(c["D"])
-            # the implementation's radius is rounded (relative 2^-52): propagate through the formula
-            sp = sf * (1 + 4e-16)
-            wiggle = abs(float(x) * math.sqrt(-2.0 * math.log(sp) / sp) / math.sqrt(c["D"]) - want)
-            if not abs(got - want) <= 1e-12 * max(1.0, abs(want)) + 4 * wiggle:
-                bad = "entry %d is %.17g, the polar method on the logged std::rand answers gives %.17g" % (e, got, want)
-                break
+        bad = polar_entry_check(c, xs, flat)
         if bad is None and (used[0] >= len(r["RAND"]) or r["RAND"][used[0]] != r["NEXT"]):
             bad = "the model consumed %d std::rand answers, the implementation a different number" % used[0]
         if bad:
@@ -1162,6 +1183,129 @@ def eval_polar(ctx, exe_plain, mexe, rng, st, shapes):
         else:
             st.hist["RPP/entries-replayed"] = st.hist.get("RPP/entries-replayed", 0) + len(flat)
             st.nontrivial.add(json.dumps(["RPP", c["D"], c["d"], c["srand"]]))
+
+
+def polar_entry_check(c, xs, flat):
+    """-> None or text: entry e of the matrix must be x_e * sqrt(-2 ln s_e / s_e) / sqrt(D) for the accepted (x_e, s_e)"""
+    for e, ((xq, sq), got) in enumerate(zip(xs, flat)):
+        x, sr = Fraction(xq), Fraction(sq)
+        if not (0 < sr < 1):
+            return "model accepted radius %s outside (0, 1)" % sr
+        if 1 - sr < Fraction(1, 1 << 40):
+            continue
+        sf = float(sr)
+        want = float(x) * math.sqrt(-2.0 * math.log(sf) / sf) / math.sqrt(c["D"])
+        sp = sf * (1 + 4e-16)
+        wiggle = abs(float(x) * math.sqrt(-2.0 * math.log(sp) / sp) / math.sqrt(c["D"]) - want)
+        if not abs(got - want) <= 1e-12 * max(1.0, abs(want)) + 4 * wiggle:
+            return "entry %d is %.17g, the polar method on the std::rand answers gives %.17g" % (e, got, want)
+    return None
+
+
+RAND_M = 1 << 31          # RAND_MAX + 1 of glibc (the harness prints RAND_MAX; a different value is noted, not judged)
+
+
+def gen_forced_stream(rng, entries):
+    """adversarial std::rand answers for the polar method: attempts with radius exactly 0 (x = y = 0), exactly 1, corners of
+    the square, extreme answers, then enough attempts inside the disc; the harness cycles through the stream"""
+    h = RAND_M // 2
+    special = [0, 1, h - 1, h, h + 1, RAND_M - 2, RAND_M - 1, h // 2, 3 * (h // 2)]
+    pre = []
+    for _ in range(rng.randint(1, 6)):
+        kind = rng.randrange(5)
+        if kind == 0:
+            pre += [h, h]                              # x = y = 0: radius == 0.0
+        elif kind == 1:
+            pre += rng.choice([[0, h], [h, 0], [RAND_M - 1, h]])   # radius == 1.0 (or one ulp below)
+        elif kind == 2:
+            pre += [rng.choice([0, RAND_M - 1]), rng.choice([0, RAND_M - 1])]    # corners: radius about 2
+        else:
+            pre += [rng.choice(special), rng.choice(special)]
+    good = []
+    while len(good) < 2 * entries + 2:
+        a, b = rng.randrange(RAND_M), rng.randrange(RAND_M)
+        x, y = Fraction(2 * a, RAND_M) - 1, Fraction(2 * b, RAND_M) - 1
+        if Fraction(1, 100) < x * x + y * y < Fraction(99, 100):
+            good += [a, b]
+    return pre + good
+
+
+def eval_forced(ctx, exe_plain, mexe, rng, st, count, cases=None):
+    """the shipped uniform_random() / gaussian_random() on FORCED std::rand answers (the plain harness defines rand()):
+    the contract u in [0, 1) of the uniform oracle (theorem uniform_random_in_unit_interval) at the extreme answers, and
+    the rejection logic of the polar method on attempts with radius exactly 0 / exactly 1 (theorem polar_accepts_open_disc)"""
+    if cases is None:
+        h = RAND_M // 2
+        cases = [{"kind": "URN", "id": "u0", "X": [],
+                  "rand": [0, 1, h - 1, h, h + 1, RAND_M - 2, RAND_M - 1] + [rng.randrange(RAND_M) for _ in range(40)]}]
+        for i in range(count):
+            D, d = rng.choice([(1, 1), (2, 2), (3, 1), (4, 2)])
+            cases.append({"kind": "RPF", "id": "g%d" % i, "D": D, "d": d, "X": [], "rand": gen_forced_stream(rng, D * d)})
+    res = run_impl(ctx, exe_plain, cases)
+    jobs = []
+    for c, r in zip(cases, res):
+        st.evals += 1
+        st.count(c["kind"])
+        pc = public(c)
+        if r["status"] == "SKIP":
+            continue
+        if r["status"] in ("BADINPUT", "BADCMD"):
+            ctx.note("harness refused the forced-stream case %s (check bug, not a verdict)" % c["id"])
+            continue
+        if r["crashed"] or r["status"] == "GARBAGE" or "RANDMAX" not in r:
+            ctx.violation(pc, "the shipped %s aborts / hangs / prints garbage on the std::rand answers %s...: %s" % (
+                "uniform_random" if c["kind"] == "URN" else "gaussian_random", c["rand"][:12], str(r.get("detail"))[:300]))
+            continue
+        if r["RANDMAX"] + 1 != RAND_M:
+            ctx.note("RAND_MAX is %d on this platform: forced-stream cases not judged" % r["RANDMAX"])
+            continue
+        if c["kind"] == "URN":
+            us = r.get("US", [])
+            if len(us) != len(c["rand"]):
+                ctx.violation(pc, "uniform_random() harness printed %d values for %d answers" % (len(us), len(c["rand"])))
+                continue
+            for rv, u in zip(c["rand"], us):
+                if not (0.0 <= u < 1.0):
+                    ctx.violation(pc, "uniform_random() returned %r for the std::rand answer %d: not in [0, 1), so floor(u * k) can be k "
+                                      "(one past the neighbour list of the local SPE strategy; theorem local_draw_in_range needs u < 1)" % (u, rv))
+                    break
+                if Fraction(u) != Fraction(rv, RAND_M):
+                    ctx.mismatch(pc, "uniform_random() returned %r for the std::rand answer %d, the model has r / (RAND_MAX + 1) = %r" % (
+                        u, rv, rv / RAND_M))
+                    break
+            else:
+                st.nontrivial.add(json.dumps(["URN", len(us)]))
+            continue
+        flat = [v for row in r.get("M", []) for v in row]
+        if len(flat) != c["D"] * c["d"]:
+            ctx.violation(pc, "gaussian_projection_matrix(%d, %d) returned %d entries" % (c["D"], c["d"], len(flat)))
+            continue
+        if not all(math.isfinite(v) for v in flat):
+            ctx.violation(pc, "gaussian_projection_matrix(%d, %d) has a non-finite entry (%r) when std::rand answers %s...: an attempt "
+                              "with radius 0 or >= 1 must be rejected (theorem polar_accepts_open_disc: accepted radius in (0, 1))" % (
+                                  c["D"], c["d"], [v for v in flat if not math.isfinite(v)][0], c["rand"][:12]))
+            continue
+        jobs.append((c, r, flat))
+    if not jobs:
+        return
+    text = "".join("POLAR %d %d\nRS %s\n" % (RAND_M, c["D"] * c["d"],
+                                              " ".join(map(str, (c["rand"] * (2 + r["USEDRAND"] // len(c["rand"])))))) for c, r, _ in jobs)
+    blocks = model_blocks(ctx, mexe, text, len(jobs))
+    for (c, r, flat), b in zip(jobs, blocks):
+        pc = public(c)
+        xs = [line.split()[1:] for line in b if line.startswith("XS")]
+        used = [int(line.split()[1]) for line in b if line.startswith("USED")]
+        if not used or len(xs) != len(flat):
+            ctx.mismatch(pc, "polar model did not finish on the forced stream although the implementation did (%s)" % (b[:1],))
+            continue
+        bad = polar_entry_check(c, xs, flat)
+        if bad is None and used[0] != r["USEDRAND"]:
+            bad = "the model consumed %d std::rand answers, the implementation %d" % (used[0], r["USEDRAND"])
+        if bad:
+            ctx.mismatch(pc, "shipped gaussian_random (polar method) on a forced std::rand stream does not match its model: " + bad)
+        else:
+            st.hist["RPF/rejected-attempts"] = st.hist.get("RPF/rejected-attempts", 0) + (used[0] - 2 * len(flat)) // 2
+            st.nontrivial.add(json.dumps(["RPF", c["D"], c["d"], c["rand"][:8]]))
 
 
 def judge_measured(ctx, st):
@@ -1271,11 +1415,11 @@ def run(ctx):
                 (4, 2, 1, 0, 0.0), (8, 3, 2, 0, 0.0), (4, 2, 1, 2, 0.25), (4, 2, 1, 3, 1048576.0), (4, 1, 1, 3, 64.0),
                 (8, 1, 1, 5, 4096.0), (4, 1, 1, 2, 0.0625), (4, 1, 1, 3, 4.0), (8, 1, 1, 3, 1024.0), (8, 3, 1, 1, 0.5)]
     budget = ({"spe": 260, "bad": 30, "gstress": 40, "lstress": 30, "rp": 60, "fa": 45, "reps": 120000,
-               "fa_replay": fa_quick, "polar": [(4, 3), (9, 2), (2, 5)]} if quick else
+               "fa_replay": fa_quick, "polar": [(4, 3), (9, 2), (2, 5)], "forced": 12} if quick else
               {"spe": 3000, "bad": 200, "gstress": 300, "lstress": 200, "rp": 600, "fa": 400, "reps": 2000000,
                "fa_replay": fa_quick * 3 + [(16, 4, 3, 1, 0.0), (8, 3, 1, 1, 0.0), (8, 3, 2, 1, 0.0), (4, 3, 2, 1, 0.0), (8, 2, 1, 2, 0.0),
                                             (16, 2, 1, 1, 0.0), (8, 3, 1, 2, 2.0), (4, 2, 2, 2, 1.0), (4, 1, 1, 4, 0.5)],
-               "fa_cap3": True, "polar": [(4, 3), (9, 2), (2, 5), (16, 4), (1, 1), (7, 7), (32, 2), (3, 16)]})
+               "fa_cap3": True, "forced": 200, "polar": [(4, 3), (9, 2), (2, 5), (16, 4), (1, 1), (7, 7), (32, 2), (3, 16)]})
     spe, bad, meas, pairs = generate(ctx, rng, budget)
     corp = corpus_cases(ctx)
     st.hist["corpus"] = len(corp)
@@ -1283,6 +1427,7 @@ def run(ctx):
     ctx.note("phase: SPE index/coordinate cases done at %.1f s" % ctx.elapsed())
     eval_pairs(ctx, exe, mexe, [c for c in corp if c["kind"] in ("RP", "FA")] + pairs, st)
     eval_polar(ctx, exe_plain, mexe, rng, st, budget["polar"])
+    eval_forced(ctx, exe_plain, mexe, rng, st, budget["forced"])
     ctx.note("phase: RP/FA pairs, FA trajectory replays and the polar-method replay done at %.1f s" % ctx.elapsed())
     if not ctx.has_violation():       # the measured tests cannot change a verdict that exists already
         eval_spe(ctx, exe, mexe, meas, st)
@@ -1325,7 +1470,7 @@ def run(ctx):
 
 
 def replay(ctx, case):
-    exe, exe_plain = build_all(ctx, want_plain=(case.get("kind") in ("RPM", "RPP")))
+    exe, exe_plain = build_all(ctx, want_plain=(case.get("kind") in ("RPM", "RPP", "RPF", "URN")))
     mexe = ctx.extract()
     st = Stats()
     c = dict(case)
@@ -1345,6 +1490,8 @@ def replay(ctx, case):
         eval_pairs(ctx, exe, mexe, [c], st)
     elif kind == "RPP":
         eval_polar(ctx, exe_plain, mexe, ctx.rng, st, [(c["D"], c["d"], c.get("srand", 1))])
+    elif kind in ("RPF", "URN"):
+        eval_forced(ctx, exe_plain, mexe, ctx.rng, st, 0, cases=[c])
     elif kind == "RPM":
         res = run_impl(ctx, exe_plain, [c])
         print(res[0])
